@@ -82,3 +82,25 @@ func TestVerifFindingEscapeLatin1(t *testing.T) {
 		t.Errorf("%d of 256 single runes do not round-trip", bad)
 	}
 }
+
+// C13 (fixed by f58bb7c): readSymbols treated the first character of any `set` value as a string delimiter:
+// a value whose first character occurs again was cut after that occurrence, so `set keymap vi-move`
+// selected the keymap "vi-mov" and the binds that follow were recorded there.
+func TestVerifFindingSetValueCutAtRepeatedFirstChar(t *testing.T) {
+	for _, name := range []string{"vi-move", "emacs-meta", "vi-command", "emacs"} {
+		cfg := NewDefaultConfig()
+		if err := ParseBytes([]byte("set keymap "+name+"\n\"\\C-x\\C-q\": end-of-line\n"), cfg); err != nil {
+			t.Fatal(err)
+		}
+		if b, ok := cfg.Binds[name][Unescape(`\C-x\C-q`)]; !ok || b.Action != "end-of-line" {
+			t.Errorf("set keymap %s: the bind that follows was not recorded in keymap %q", name, name)
+		}
+	}
+	cfg := NewDefaultConfig()
+	if err := ParseBytes([]byte("set history-size 1010\n"), cfg); err != nil {
+		t.Fatal(err)
+	}
+	if got := cfg.GetInt("history-size"); got != 1010 {
+		t.Errorf("set history-size 1010 stored %d", got)
+	}
+}
